@@ -73,7 +73,21 @@ fn histories<'a>(env: &'a Env, thorough: bool) -> Vec<History<'a>> {
         let (sc, regs) = mk_index(0, 1, 5);
         v.push(History { name: format!("set_scripts-partial@12/{}", sc.name), sc: Box::new(sc), devs: vec![(12, Dev::SetScripts(1, 0))], regs, final_chain: 0 });
     }
+    // H-set-scripts-delete: the LAST script is deleted while matched blocks of the first one are
+    // pending (block 2 downloaded, block 3 not): the only thing that makes the client look at those
+    // blocks again is the rewind before the discarded record - no script number asks for it
+    {
+        let (sc, regs) = mk_index(0, 1, 5);
+        let regs = regs[..regs.len() - 1].to_vec();
+        v.push(History { name: format!("set_scripts-delete-last@12/{}", sc.name), sc: Box::new(sc), devs: vec![(12, Dev::SetScripts(2, 2))], regs, final_chain: 0 });
+    }
     if thorough {
+        // the same with batches of 3 at a later moment
+        {
+            let (sc, regs) = mk_index(0, 1, 3);
+            let regs = regs[..regs.len() - 1].to_vec();
+            v.push(History { name: format!("set_scripts-delete-last@16/{}", sc.name), sc: Box::new(sc), devs: vec![(16, Dev::SetScripts(2, 2))], regs, final_chain: 0 });
+        }
         // set_scripts all / delete at several moments of the sync (matched blocks pending, partly
         // downloaded, after indexing)
         // (the command re-registers the first script with the block number it currently reports:
